@@ -551,7 +551,7 @@ var Prop = &harness.Prop{
 		for _, es := range []uint16{gmref.SuiteECDHERSAGCM, gmref.SuiteECDHEECDSAGCM} {
 			u = append(u, ecdheUnit(es, true), ecdheUnit(es, false))
 		}
-		u = append(u, tlsTicketIdentityUnit(), nameMatrixUnit())
+		u = append(u, tlsTicketIdentityUnit(), nameMatrixUnit(), callbackUnit())
 		chd := 4
 		if tier == "thorough" {
 			chd = 5
